@@ -518,7 +518,8 @@ public:
 		, mOutput(nullptr)
 	{
 		static_assert(TMode == SerializeMode::Load, "BitSerializer. This data type can be used only in 'Load' mode.");
-		const auto result = mRootXml.load_buffer(inputStr.data(), inputStr.size(), pugi::parse_default, pugi::encoding_utf8);
+		// Flag `parse_ws_pcdata_single` is required for load string values which consist of only whitespace characters
+		const auto result = mRootXml.load_buffer(inputStr.data(), inputStr.size(), pugi::parse_default | pugi::parse_ws_pcdata_single, pugi::encoding_utf8);
 		if (!result) {
 			throw ParsingException(result.description(), 0, result.offset);
 		}
@@ -536,7 +537,8 @@ public:
 		, mOutput(nullptr)
 	{
 		static_assert(TMode == SerializeMode::Load, "BitSerializer. This data type can be used only in 'Load' mode.");
-		const auto result = mRootXml.load(inputStream);
+		// Flag `parse_ws_pcdata_single` is required for load string values which consist of only whitespace characters
+		const auto result = mRootXml.load(inputStream, pugi::parse_default | pugi::parse_ws_pcdata_single);
 		if (!result) {
 			throw ParsingException(result.description(), 0, result.offset);
 		}
